@@ -40,8 +40,12 @@ class Lock:
         self.f.close()
 
 def load_props():
-    with open(os.path.join(ROOT, "props.json")) as f:
-        return json.load(f)
+    """One file per property: props.d/Cxx.json."""
+    props = {}
+    for p in sorted(glob.glob(os.path.join(ROOT, "props.d", "*.json"))):
+        with open(p) as f:
+            props[os.path.basename(p)[:-5]] = json.load(f)
+    return props
 
 def strip_comments(src):
     # remove /- ... -/ (nested) and -- comments
@@ -62,35 +66,36 @@ def strip_comments(src):
 
 # ---------------------------------------------------------------- overlay / go builds
 
-def overlay_json():
-    """Map every harness file to its virtual path inside /repo (go build -overlay)."""
+def overlay_json(hdir):
+    """Map the files of harness/hx and harness/<hdir> to virtual paths inside /repo
+    (go build -overlay). Per harness: VPATH names the virtual directory of its main package;
+    HOOKS lists `<file relative to the harness dir> <virtual path>` for files injected into
+    existing packages of /repo (export hooks, build tag verif)."""
     repl = {}
     hroot = os.path.join(ROOT, "harness")
-    for d in sorted(os.listdir(hroot)):
+    for d in ("hx", hdir):
         dp = os.path.join(hroot, d)
-        vp = os.path.join(dp, "VPATH")
-        if os.path.isfile(vp):
-            v = open(vp).read().strip().replace("/repo", REPO, 1)
-            for f in sorted(os.listdir(dp)):
-                if f.endswith(".go"):
-                    repl[os.path.join(v, f)] = os.path.join(dp, f)
-    fl = os.path.join(hroot, "hooks", "FILES")
-    if os.path.isfile(fl):
-        for line in open(fl):
-            line = line.strip()
-            if not line or line.startswith("#"): continue
-            src, dst = line.split()
-            repl[dst.replace("/repo", REPO, 1)] = os.path.join(hroot, "hooks", src)
+        v = open(os.path.join(dp, "VPATH")).read().strip().replace("/repo", REPO, 1)
+        for f in sorted(os.listdir(dp)):
+            if f.endswith(".go"):
+                repl[os.path.join(v, f)] = os.path.join(dp, f)
+        hk = os.path.join(dp, "HOOKS")
+        if os.path.isfile(hk):
+            for line in open(hk):
+                line = line.strip()
+                if not line or line.startswith("#"): continue
+                src, dst = line.split()
+                repl[dst.replace("/repo", REPO, 1)] = os.path.join(dp, src)
     os.makedirs(BUILD, exist_ok=True)
-    p = os.path.join(BUILD, "overlay.json")
+    p = os.path.join(BUILD, "overlay-%s.json" % hdir)
     tmp = p + ".%d" % os.getpid()
     with open(tmp, "w") as f:
         json.dump({"Replace": repl}, f, indent=1)
     os.replace(tmp, p)
     return p
 
-def go_build(pkg_vpath, out, extra=()):
-    ov = overlay_json()
+def go_build(hdir, pkg_vpath, out, extra=()):
+    ov = overlay_json(hdir)
     rel = "./" + os.path.relpath(pkg_vpath.replace("/repo", REPO, 1), REPO)
     cmd = ["go", "build", "-tags", "verif", "-overlay", ov, *extra, "-o", out, rel]
     return sh(cmd, cwd=REPO, timeout=900)
@@ -119,6 +124,20 @@ def regen_facts(prop, cfg, log):
             log.append("facts %s regenerated (changed)" % name)
     return True, ""
 
+def import_closure(mods):
+    """Project-local .lean files reachable from the given modules through `import`."""
+    seen, todo, files = set(), list(mods), []
+    while todo:
+        m = todo.pop()
+        if m in seen: continue
+        seen.add(m)
+        path = os.path.join(LEAN, *m.split(".")) + ".lean"
+        if not os.path.isfile(path): continue
+        files.append(path)
+        for im in re.findall(r"^\s*(?:public\s+)?import\s+([\w.]+)", open(path).read(), re.M):
+            todo.append(im)
+    return sorted(files)
+
 def theorem_at(path, lineno):
     try:
         lines = open(path).read().split("\n")
@@ -140,7 +159,7 @@ def p_layer(prop, cfg, tier, log):
             res["build_ok"] = False
             res["broken"].append({"theorem": "Generated facts (extractor)", "detail": msg[-2000:]})
             return res
-        r = sh(["lake", "build", *targets, "driver"], cwd=LEAN, timeout=3000)
+        r = sh(["lake", "build", *targets, "driver_" + prop.lower()], cwd=LEAN, timeout=3000)
     if r.returncode != 0:
         res["build_ok"] = False
         res["detail"] = r.stdout[-6000:]
@@ -155,14 +174,13 @@ def p_layer(prop, cfg, tier, log):
                                   "detail": m.group(4)[:500]})
         if not res["broken"]:
             res["broken"].append({"theorem": "lake build", "detail": r.stdout[-1500:]})
-    # forbidden tokens
-    for sub in ("Model", "Proofs", "Generated", "Audit"):
-        for path in glob.glob(os.path.join(LEAN, sub, "**", "*.lean"), recursive=True):
-            src = strip_comments(open(path).read())
-            for n, line in enumerate(src.split("\n"), 1):
-                if FORBIDDEN.search(line):
-                    res["broken"].append({"theorem": "forbidden token", "file": os.path.relpath(path, LEAN),
-                                          "line": n, "detail": line.strip()[:200]})
+    # forbidden tokens, in every project file the property's targets (and its driver) import
+    for path in import_closure(list(targets) + ["Driver." + prop]):
+        src = strip_comments(open(path).read())
+        for n, line in enumerate(src.split("\n"), 1):
+            if FORBIDDEN.search(line):
+                res["broken"].append({"theorem": "forbidden token", "file": os.path.relpath(path, LEAN),
+                                      "line": n, "detail": line.strip()[:200]})
     # audit
     if audit:
         apath = os.path.join(LEAN, audit)
@@ -232,7 +250,7 @@ def run_ks(prop, cfg, tier, seed, log, replay_ids=None):
     env_extra = {}
     with Lock("gobuild-" + hdir):
         if os.path.exists(hbin): os.remove(hbin)
-        r = go_build(vpath, hbin, cfg.get("go_flags", []))
+        r = go_build(hdir, vpath, hbin, cfg.get("go_flags", []))
         if r.returncode != 0:
             res["ok"] = False
             res["harness_error"] = "harness does not build against /repo:\n" + r.stdout[-3000:]
@@ -240,13 +258,13 @@ def run_ks(prop, cfg, tier, seed, log, replay_ids=None):
         for xb in cfg.get("extra_builds", []):
             out = os.path.join(bindir, xb["out"])
             if os.path.exists(out): os.remove(out)
-            r = go_build(xb["pkg"], out, xb.get("flags", []))
+            r = go_build(hdir, xb["pkg"], out, xb.get("flags", []))
             if r.returncode != 0:
                 res["ok"] = False
                 res["harness_error"] = "extra build %s failed:\n%s" % (xb["pkg"], r.stdout[-3000:])
                 return res
             env_extra[xb["env"]] = out
-    driver = os.path.join(LEAN, ".lake", "build", "bin", "driver")
+    driver = os.path.join(LEAN, ".lake", "build", "bin", "driver_" + prop.lower())
     shards = cfg.get("shards", {}).get(tier, 1)
     rundir = os.path.join(BUILD, "run", prop); os.makedirs(rundir, exist_ok=True)
     timeout = cfg.get("timeout", {}).get(tier, 600 if tier == "quick" else 3600)
@@ -277,7 +295,7 @@ def run_ks(prop, cfg, tier, seed, log, replay_ids=None):
     for s in range(shards):
         gi = open(os.path.join(rundir, "go.%d.txt" % s))
         lo = open(os.path.join(rundir, "lean.%d.txt" % s), "w")
-        dprocs.append((s, subprocess.Popen([driver, cfg.get("driver_arg", prop)], stdin=gi, stdout=lo,
+        dprocs.append((s, subprocess.Popen([driver], stdin=gi, stdout=lo,
                                            stderr=subprocess.PIPE), gi, lo))
     for s, p, gi, lo in dprocs:
         try:
@@ -382,7 +400,7 @@ def main():
 
     P = p_layer(prop, cfg, tier, log) if not args.skip_proofs else dict(obligations=0, discharged=0, broken=[], build_ok=True, axioms={})
     KS = dict(ok=True, cases=0, k_diffs=[], s_hits=[], tags={}, distinct_nt=0, samples=[], harness_error=None, k_count=0, s_checked=0)
-    driver_ok = os.path.exists(os.path.join(LEAN, ".lake", "build", "bin", "driver"))
+    driver_ok = os.path.exists(os.path.join(LEAN, ".lake", "build", "bin", "driver_" + prop.lower()))
     if P["build_ok"] or driver_ok:
         KS = run_ks(prop, cfg, tier, seed, log, replay_ids)
 
@@ -405,7 +423,7 @@ def main():
             known_lines.setdefault(kfs[0], []).append(h)
         else:
             new_hits.append(h)
-    for h in new_hits[:5]:
+    for h in new_hits[:3]:
         path = write_replay({"layer": "S", "case_id": h["id"], "case": h["case"], "impl": h["impl"],
                              "expected": h["expected"], "what": h["what"], "diff": first_diff(h["impl"], h["expected"])})
         violations.append("VIOLATION property=%s replay=%s" % (prop, path))
